@@ -91,13 +91,41 @@ Definition set_lookup st l := mkdb (known st) (rcpt st) (avail st) (disk st) (ca
 Definition write_lookups (lk : N -> option N) (n : N) (txs : list N) : N -> option N :=
   fold_left (fun l tx => upd l tx (Some n)) txs lk.
 
+(* reorg's last loop and writeHeadBlock's clean-up loop: for i := number+1; ; i++ { if ReadCanonicalHash(i) == 0 break; Delete(i) } *)
+Fixpoint del_canon_from (fuel : nat) (c : N -> option N) (i : N) : option (N -> option N) :=
+  match fuel with
+  | O => None
+  | S f => match c i with
+           | None => Some c
+           | Some _ => del_canon_from f (upd c i None) (i + 1)
+           end
+  end.
+
 (* blockchain.go:1298 writeHeadBlock: canonical hash, tx lookups and all three
-   head markers in one batch, then the in-memory markers *)
-Definition write_head_block (st : db) (x : hdr) : db :=
-  mkdb (known st) (rcpt st) (avail st) (disk st)
-       (upd (canon st) (hnum x) (Some (fst x)))
-       (write_lookups (lookup st) (hnum x) (b_txs (snd x)))
-       (fst x) (fst x) (fst x).
+   head markers in one batch, then the in-memory markers.  Since 337872da5f: if the
+   block replaces a DIFFERENT canonical block at its own height (no reorg has cleared
+   the slot: the head block had been rewound below the head header), the canonical
+   markers above it are deleted in the same batch.  [None] = fuel exhausted. *)
+Definition whb_clear (fuel : nat) (c : N -> option N) (x : hdr) : option (N -> option N) :=
+  match c (hnum x) with
+  | Some old => if old =? fst x then Some c else del_canon_from fuel c (hnum x + 1)
+  | None => Some c
+  end.
+
+Definition write_head_block (fuel : nat) (st : db) (x : hdr) : option db :=
+  match whb_clear fuel (canon st) x with
+  | None => None
+  | Some c1 =>
+    Some (mkdb (known st) (rcpt st) (avail st) (disk st)
+               (upd c1 (hnum x) (Some (fst x)))
+               (write_lookups (lookup st) (hnum x) (b_txs (snd x)))
+               (fst x) (fst x) (fst x))
+  end.
+
+(* writeHeadBlock over a list of blocks, oldest first (reorg's "Apply new blocks") *)
+Definition fold_whb (fuel : nat) (l : list hdr) (st : db) : option db :=
+  fold_left (fun acc x => match acc with Some s => write_head_block fuel s x | None => None end)
+            l (Some st).
 
 (* blockchain.go:2548 collectReceiptsAndLogs: logs come from the stored receipts;
    without receipts (block written by writeBlockWithoutState) there are none *)
@@ -139,16 +167,6 @@ Fixpoint find_common (fuel : nat) (st : db) (o n : hdr) (oc nc : list hdr)
                 end
   end.
 
-(* reorg, last loop: for i := number+1; ; i++ { if ReadCanonicalHash(i) == 0 break; Delete(i) } *)
-Fixpoint del_canon_from (fuel : nat) (c : N -> option N) (i : N) : option (N -> option N) :=
-  match fuel with
-  | O => None
-  | S f => match c i with
-           | None => Some c
-           | Some _ => del_canon_from f (upd c i None) (i + 1)
-           end
-  end.
-
 Definition hdr_txs (l : list hdr) : list N := flat_map (fun x => b_txs (snd x)) l.
 Definition delete_lookups (lk : N -> option N) (txs : list N) : N -> option N :=
   fold_left (fun l tx => upd l tx None) txs lk.
@@ -184,14 +202,17 @@ Definition reorg (fuel : nat) (st : db) (old new : hdr) : res (db * list event) 
           let nb := rev (tl nc) in
           let rebirth_txs := hdr_txs nb in
           let added := map EvLogs (chunk_logs (map (logs_of st) nb) []) in
-          let st1 := fold_left write_head_block nb st in
-          (* types.HashDifference(deletedTxs, rebirthTxs) *)
-          let st2 := set_lookup st1 (delete_lookups (lookup st1)
-                        (filter (fun tx => negb (mem tx rebirth_txs)) deleted_txs)) in
-          let number := match nc with _ :: x1 :: _ => hnum x1 | _ => hnum c end in
-          match del_canon_from fuel (canon st2) (number + 1) with
+          match fold_whb fuel nb st with
           | None => Err EOutOfFuel
-          | Some c' => Ok (set_canon st2 c', removed ++ added)
+          | Some st1 =>
+            (* types.HashDifference(deletedTxs, rebirthTxs) *)
+            let st2 := set_lookup st1 (delete_lookups (lookup st1)
+                          (filter (fun tx => negb (mem tx rebirth_txs)) deleted_txs)) in
+            let number := match nc with _ :: x1 :: _ => hnum x1 | _ => hnum c end in
+            match del_canon_from fuel (canon st2) (number + 1) with
+            | None => Err EOutOfFuel
+            | Some c' => Ok (set_canon st2 c', removed ++ added)
+            end
           end
         end
       end
@@ -211,7 +232,10 @@ Definition reorg_if_needed (fuel : nat) (st : db) (x : hdr) : res (db * list eve
 Definition write_known_block (fuel : nat) (st : db) (x : hdr) : res (db * list event) :=
   match reorg_if_needed fuel st x with
   | Err e => Err e
-  | Ok (st1, ev) => Ok (write_head_block st1 x, ev)
+  | Ok (st1, ev) => match write_head_block fuel st1 x with
+                    | Some st2 => Ok (st2, ev)
+                    | None => Err EOutOfFuel
+                    end
   end.
 
 Definition add_known (st : db) (h : N) : db :=
@@ -236,8 +260,11 @@ Definition write_block_and_set_head (fuel : nat) (st : db) (x : hdr) : res (db *
     match reorg_if_needed fuel st1 x with
     | Err e => Err e
     | Ok (st2, ev) =>
-      Ok (write_head_block st2 x,
-          ev ++ [EvChain (fst x)] ++ (match b_logs (snd x) with [] => [] | l => [EvLogs l] end))
+      match write_head_block fuel st2 x with
+      | None => Err EOutOfFuel
+      | Some st3 =>
+        Ok (st3, ev ++ [EvChain (fst x)] ++ (match b_logs (snd x) with [] => [] | l => [EvLogs l] end))
+      end
     end
   end.
 
@@ -454,9 +481,12 @@ Definition set_canonical (fuel : nat) (st : db) (x : hdr) : outcome :=
     match reorg_if_needed fuel st1 x with
     | Err e => (st1, ev1, Some e)
     | Ok (st2, ev2) =>
-      let st3 := write_head_block st2 x in
-      (st3, ev1 ++ ev2 ++ [EvChain (fst x)] ++
-            (match logs_of st3 x with [] => [] | l => [EvLogs l] end) ++ [EvHead (fst x)], None)
+      match write_head_block fuel st2 x with
+      | None => (st2, ev1 ++ ev2, Some EOutOfFuel)
+      | Some st3 =>
+        (st3, ev1 ++ ev2 ++ [EvChain (fst x)] ++
+              (match logs_of st3 x with [] => [] | l => [EvLogs l] end) ++ [EvHead (fst x)], None)
+      end
     end
   end.
 
